@@ -912,6 +912,8 @@ class FragmentReceiver(object):
         if 1 <= index <= len(self.fragments):
             if self.fragments[index-1] is None:
                 self.fragments[index-1] = fragment
+                # the timeout is measured from the last received fragment
+                self.ctime = time.time()
 
         if index == 1:
             self.msgseq = msgseq
